@@ -136,6 +136,24 @@ func init() {
 					}
 				}
 			}
+			// an integer variable spelled like the compiler's internal end-if marker, in every shape with an if
+			seenFi := map[string]bool{}
+			for _, u := range units {
+				src := u.Args[0]
+				if u.Args[2] == "v" && strings.Contains(src, "(if ") && strings.Contains(src, "i0") && !seenFi[src] {
+					seenFi[src] = true
+					units = append(units, Unit{"VerifC01", []string{replaceAtom(src, "i0", "fi"), "keys", "v"}})
+				}
+			}
+			// integer literals denote their decimal value wherever they are written
+			for _, sk := range []string{"d", "dd", "0d", "0dd", "00d", "-d", "-0d", "-0dd", "ddd", "0", "00", "-0", "1dddd", "0dddd"} {
+				for _, where := range []string{"operand", "only", "list", "infix", "infix-list", "folded"} {
+					if strings.HasPrefix(sk, "-") && strings.HasPrefix(where, "infix") {
+						continue // a minus sign in front of a literal is an operator in infix notation
+					}
+					units = append(units, Unit{"VerifC01Literal", []string{sk, where}})
+				}
+			}
 			small := 1
 			if tier == "thorough" {
 				small = 2
@@ -148,7 +166,7 @@ func init() {
 			}
 			return units
 		},
-		Reach: []string{"value", "sentinel", "builtin-error", "evalbool-nonbool"},
+		Reach: []string{"value", "sentinel", "builtin-error", "evalbool-nonbool", "literal"},
 		Bounds: func(tier string) map[string]interface{} {
 			maxM, _ := shapeTierParams(tier)
 			return map[string]interface{}{"shapes": "all typed shapes with ≤" + itoa(maxM) + " internal nodes (grammar of DESIGN.md §3) + jump-stress family",
@@ -1408,4 +1426,20 @@ func opsOf(src string) []string {
 		out = append(out, name)
 	}
 	return out
+}
+
+// replaceAtom replaces every occurrence of the atom old (delimited by spaces or parentheses) by new.
+func replaceAtom(src, old, new string) string {
+	var sb strings.Builder
+	for i := 0; i < len(src); {
+		if strings.HasPrefix(src[i:], old) && (i == 0 || src[i-1] == ' ' || src[i-1] == '(') &&
+			(i+len(old) == len(src) || src[i+len(old)] == ' ' || src[i+len(old)] == ')') {
+			sb.WriteString(new)
+			i += len(old)
+			continue
+		}
+		sb.WriteByte(src[i])
+		i++
+	}
+	return sb.String()
 }
